@@ -151,8 +151,8 @@ mut("c19-module-scratch-variable", ["C19"],
 mut("c19-print-in-constructor", ["C19"], ("cvss/cvss4.py", "        self.parse_vector()\n        self.check_mandatory()\n        self.add_missing_optional()", "        self.parse_vector()\n        self.check_mandatory()\n        if len(self.metrics) > 25:\n            print(\"large vector\", self.vector)\n        self.add_missing_optional()"))
 mut("c19-ambient-rounding", ["C19"], ("cvss/cvss2.py", '    return value.quantize(D("0.1"), rounding=ROUND_HALF_UP)', '    return (value + D("0.05")).quantize(D("0.1"), rounding="ROUND_FLOOR") if value >= 0 else value.quantize(D("0.1"))'),
     note="negative intermediate values are rounded with the ambient mode")
-mut("c19-ambient-rounding-v3", ["C19"], ("cvss/cvss3.py", "        self.esc = (\n            D(\"8.22\")", "        self.esc = +(\n            D(\"8.22\")"), tier="thorough",
-    note="unary plus rounds to the context precision: harmless at prec>=28")
+mut("c19-ambient-rounding-v3", ["C19"], ("cvss/cvss3.py", "        self.esc = (\n            D(\"8.22\")", "        self.esc = +(\n            D(\"8.22\")"), tier="none",
+    note="unary plus rounds to the context precision: harmless at prec>=28, i.e. an EQUIVALENT mutant on the property's domain (the product has at most 11 significant digits, so rounding to >= 28 digits is the identity); survives the quick tier as expected")
 mut("c19-hash-order-leak", ["C19"], ("cvss/cvss_calculator.py", "sort=True, minimal=True", "sort=False, minimal=True"), tier="none",
     note="py3 dicts are ordered: not observable; kept as documentation of an equivalent mutant")
 mut("c19-warnings-filter", ["C19"], ("cvss/parser.py", "    cvsss = set()", "    import warnings\n\n    warnings.simplefilter(\"ignore\")\n    cvsss = set()"))
